@@ -351,13 +351,16 @@ func (r *blockReader) Value(seg Segment) []byte {
 		s := r.segments.At(line)
 		if i < 0 {
 			i = s.Start
+			ret = s.ConcatPadding(ret)
+		} else {
+			// first line: the padding in front of seg.Start is the segment's own
+			ret = seg.ConcatPadding(ret)
 		}
-		ret = s.ConcatPadding(ret)
 		for ; i < seg.Stop && i < s.Stop; i++ {
 			ret = append(ret, r.source[i])
 		}
 		i = -1
-		if s.Stop > seg.Stop {
+		if s.Stop >= seg.Stop {
 			break
 		}
 	}
